@@ -192,6 +192,11 @@ def evaluate(case):
     if case["kind"] == "matrix":
         return _matrix(case, phi, algc, labels)
     if case["kind"] == "access":
+      import copy as _copy
+      import numpy as _np
+      # array-valued twin of x (list of arrays): reading a coefficient through any spelling must not change the multivector
+      xarr = kd.mk_raw(algc, ka, [_np.array([float(v), 2 * float(v) + 1]) for v in va])
+      snap = [_np.array(v) for v in xarr.values()]
       for spell in (case.get("spells") or [case.get("spell")]):
         sp = "".join(phi.refc.gens[j] for j in spell)
         name = "e" + sp
@@ -200,6 +205,16 @@ def evaluate(case):
         if gc != gd:
             raise Violation("accessor-commutes", "getattr", f"x.{name} = {gc} in basis {cfg['basis']} but the relabelled element in the "
                             f"default basis reads {gd}", custom=repr(gc), default=repr(gd))
+        ga = _observe(lambda: getattr(xarr, name))
+        sgn, bkey = phi.refc.spelled(sp)
+        if ga[0] == "ok":
+            want = (sgn * snap[list(ka).index(bkey)]) if bkey in list(ka) else 0
+            if not _np.allclose(_np.asarray(ga[1], dtype=float), _np.asarray(want, dtype=float)):
+                raise Violation("accessor-commutes", "getattr", f"array-valued x.{name} = {ga[1]!r}, expected {want!r}")
+        for before, now in zip(snap, xarr.values()):
+            if not _np.array_equal(before, _np.asarray(now)):
+                raise Violation("accessor-commutes", "getattr", f"reading x.{name} changed the stored (array-valued) coefficients of x: "
+                                f"{[list(b) for b in snap]} -> {[list(_np.asarray(v)) for v in xarr.values()]}")
         # the named blade itself is the ordered product of its generators
         bc = _observe(lambda: kd.to_dict(algc.blades[name]))
         bd = _observe(lambda: kd.to_dict(algd.blades[name]))
